@@ -20,9 +20,13 @@ pub const V2_DOCS: [(&str, &str); 3] = [
     ("v2_zlib_F", r#"{"zarr_format":2,"shape":[4,4],"chunks":[2,2],"dtype":"<i4","compressor":{"id":"zlib","level":1},"fill_value":0,"order":"F","filters":[]}"#),
     ("v2_fso", r#"{"zarr_format":2,"shape":[4,4],"chunks":[2,2],"dtype":"<f8","compressor":{"id":"zstd","level":1},"fill_value":0.0,"order":"C","filters":[{"id":"fixedscaleoffset","offset":0,"scale":10,"dtype":"<f8","astype":"<i4"}]}"#),
 ];
-pub const V3_DOCS: [(&str, &str); 2] = [
+pub const V3_DOCS: [(&str, &str); 4] = [
     ("v3_fso", r#"{"zarr_format":3,"node_type":"array","shape":[4,4],"data_type":"float64","chunk_grid":{"name":"regular","configuration":{"chunk_shape":[2,2]}},"chunk_key_encoding":{"name":"default","configuration":{"separator":"/"}},"fill_value":0.0,"codecs":[{"name":"numcodecs.fixedscaleoffset","configuration":{"offset":0,"scale":10,"dtype":"f8","astype":"i4"}},{"name":"bytes","configuration":{"endian":"little"}}]}"#),
     ("v3_nested_shard", r#"{"zarr_format":3,"node_type":"array","shape":[8,8],"data_type":"uint16","chunk_grid":{"name":"regular","configuration":{"chunk_shape":[4,4]}},"chunk_key_encoding":{"name":"default","configuration":{"separator":"/"}},"fill_value":0,"codecs":[{"name":"sharding_indexed","configuration":{"chunk_shape":[2,2],"codecs":[{"name":"sharding_indexed","configuration":{"chunk_shape":[1,1],"codecs":[{"name":"bytes","configuration":{"endian":"little"}},{"name":"gzip","configuration":{"level":1}}],"index_codecs":[{"name":"bytes","configuration":{"endian":"little"}},{"name":"crc32c"}],"index_location":"end"}}],"index_codecs":[{"name":"bytes","configuration":{"endian":"little"}},{"name":"crc32c"}],"index_location":"start"}}]}"#),
+    // value-mapping array->array codecs INSIDE a shard (their default `encoded_fill_value` builds `CodecOptions::default()`,
+    // i.e. reads the configuration, while the shard codec computes the concurrency of its inner chain)
+    ("v3_shard_fso", r#"{"zarr_format":3,"node_type":"array","shape":[8,8],"data_type":"float32","chunk_grid":{"name":"regular","configuration":{"chunk_shape":[4,4]}},"chunk_key_encoding":{"name":"default","configuration":{"separator":"/"}},"fill_value":0.0,"codecs":[{"name":"sharding_indexed","configuration":{"chunk_shape":[2,2],"codecs":[{"name":"numcodecs.fixedscaleoffset","configuration":{"offset":0,"scale":1,"dtype":"<f4"}},{"name":"bytes","configuration":{"endian":"little"}}],"index_codecs":[{"name":"bytes","configuration":{"endian":"little"}},{"name":"crc32c"}],"index_location":"end"}}]}"#),
+    ("v3_shard_bitround", r#"{"zarr_format":3,"node_type":"array","shape":[8,8],"data_type":"float32","chunk_grid":{"name":"regular","configuration":{"chunk_shape":[4,4]}},"chunk_key_encoding":{"name":"default","configuration":{"separator":"/"}},"fill_value":0.0,"codecs":[{"name":"sharding_indexed","configuration":{"chunk_shape":[2,2],"codecs":[{"name":"bitround","configuration":{"keepbits":10}},{"name":"bytes","configuration":{"endian":"little"}}],"index_codecs":[{"name":"bytes","configuration":{"endian":"little"}}],"index_location":"start"}}]}"#),
 ];
 
 pub struct C19Ctx {
@@ -195,10 +199,12 @@ pub fn generate(tier: &str, seed: u64) -> Vec<String> {
         out.push("c19 op array_erase_metadata".into());
     }
     for (name, doc) in V3_DOCS.iter() {
-        let es = if name.contains("fso") { 8 } else { 2 };
+        let es = if name.starts_with("v3_shard_") { 4 } else if name.contains("fso") { 8 } else { 2 };
         out.push(format!("c19 cfg name={} path=/a v2=0 es={} meta={}", name, es, hex(doc.as_bytes())));
         for op in ops { out.push(format!("c19 op {}", op)); }
         out.push(format!("c19 op array_write_read r=0,0+3,3 data={}", show_elems(&vec![vec![1u8; es]; 9])));
+        // the whole array: every shard is covered completely (decoded straight into the output)
+        out.push(format!("c19 op array_write_read r=0,0+8,8 data={}", show_elems(&vec![vec![1u8; es]; 64])));
         out.push(format!("c19 op array_partial_encode r=1,1+2,2 data={}", show_elems(&vec![vec![2u8; es]; 4])));
         out.push("c19 op array_erase_metadata".into());
     }
